@@ -185,4 +185,16 @@ FormatTexts(n, den, net, dec) ==
 (* ---------------- amounts placed in transactions ----------------------- *)
 \* only non-negative integers of the smallest unit may be placed; they are serialized as 8 bytes little-endian
 LE8(n) == PadLE(ConvBEtoLE(n, 10, 256), 8)
+
+(* An amount may reach an entry point (Output, Transaction.add_output, Input) as a number of any numeric type: int,   *)
+(* bool, float, decimal.Decimal, fractions.Fraction, numpy scalars, or as a text / Value.  Whatever the carrier, it   *)
+(* denotes an exact rational number num/den of smallest units (num: decimal digits, den: small positive integer).     *)
+(* The rule: the call either refuses, or stores an INTEGER equal to that exact value - never a truncated, rounded or  *)
+(* non-integer amount - and what is serialized (and what enters the fee) is the stored amount.                        *)
+RatWhole(num, den) == DivSmallBE(num, den, 0, 10)[2] = 0
+RatInt(num, den)   == Norm(DivSmallBE(num, den, 0, 10)[1])
+\* carriers for which a whole, non-negative amount must be accepted (the documented argument types)
+MustAccept(api, ty) == \/ api = "Output"     /\ ty \in {"int", "float", "str", "Value"}
+                       \/ api = "add_output" /\ ty \in {"int", "float"}
+                       \/ api \in {"Input", "add_input"} /\ ty \in {"int", "float", "str", "Value"}
 =============================================================================
